@@ -2,7 +2,7 @@
 C20 — driver. One section = one program.
 Ops:  s <escaped chunk>  => ok
       fmt                => empty
-                          | lex=<st> parse=<st> fmt=<st> T1 <tok>… A1 <dump>…
+                          | lex=<st> parse=<st> fmt=<st> oddlit=<0|1> oddcm=<0|1> T1 <tok>… A1 <dump>…
                             [ out=empty | lex2=<st> parse2=<st> fmt2=<st> idem=<0|1> ncomments=<n> comments=<c> T2 <tok>… A2 <dump>… [OUT1 … OUT2 …] ]
       <tok> = KIND|nl|cm|'text (real scanner, comments left out);  <dump> = canonical dump of the real parser's AST.
 Correspondence (MISMATCH): the model parser accepts exactly what the real parser accepts and builds the same AST
@@ -48,7 +48,7 @@ def sectionAfter (ws : List String) (m : String) : List String :=
   ((ws.dropWhile (· ≠ m)).drop 1).takeWhile fun w => !(isMarker w) && !(isKvWord w)
 
 def stmtKind : Stmt → String
-  | .syntax _ => "stmt-syntax" | .info _ => "stmt-info" | .importLit _ => "stmt-import"
+  | .syntaxS _ => "stmt-syntax" | .info _ => "stmt-info" | .importLit _ => "stmt-import"
   | .importGroup _ => "stmt-import-group" | .typeLit _ => "stmt-type" | .typeGroup _ => "stmt-type-group"
   | .service (some _) .. => "stmt-service-atserver" | .service none .. => "stmt-service"
 
@@ -122,6 +122,12 @@ def runFmt (r : Report) (sec : Nat) (line : Nat) (kind : String) (obs : List Str
   if fmt != "ok" then
     return r.violation sec line s!"valid source but formatting fails: fmt={fmt}"
   let nm1 := norm m1
+  -- literals / comments with control characters (tab, line break) are outside the checked domain:
+  -- tabwriter and Writer.write rewrite them (recorded finding); counted, not judged
+  let oddLit := kvStr obs "oddlit" == "1"
+  let oddCm := kvStr obs "oddcm" == "1"
+  if oddLit then r := r.addCover "skip-control-char-in-literal"
+  if oddCm then r := r.addCover "skip-control-char-in-comment"
   if nm1.length < m1.length then r := r.addCover "dropped-empty-statement"
   if obs.contains "out=empty" then
     r := r.addCover "output-empty"
@@ -133,6 +139,11 @@ def runFmt (r : Report) (sec : Nat) (line : Nat) (kind : String) (obs : List Str
   let idem := kvStr obs "idem"
   r := r.addCover ("comments-" ++ kvStr obs "comments")
   if kvNat obs "ncomments" > 0 then r := r.addCover "with-comments"
+  -- a mutation can put a comment between any two tokens of a statement; the formatter's handling of such
+  -- comments is a recorded finding (it loses / misplaces them), so mutated programs with comments are only
+  -- checked for crash-freedom, accept/reject and successful formatting
+  if kind == "mut" && kvNat obs "ncomments" > 0 then
+    return r.addCover "skip-mutated-with-comments"
   if lex2 != "ok" || prs2 != "ok" then
     return r.violation sec line s!"formatted text is not a valid source: lex2={lex2} parse2={prs2}"
   match parseTokWords (sectionAfter obs "T2") with
@@ -140,7 +151,8 @@ def runFmt (r : Report) (sec : Nat) (line : Nat) (kind : String) (obs : List Str
   | some t2 =>
   -- correspondence: formatter (token texts) and parser on the formatted text
   let f1 := format m1
-  if squash f1 != squash t2 then
+  if oddLit then pure ()
+  else if squash f1 != squash t2 then
     r := r.mismatch sec line ("format: " ++ squash f1) ("format: " ++ squash t2)
   else if sameToks f1 t2 then r := r.addCover "format-tokens-exact"
   else r := r.addCover "format-tokens-text-only"
@@ -152,10 +164,12 @@ def runFmt (r : Report) (sec : Nat) (line : Nat) (kind : String) (obs : List Str
   let a2 := sectionAfter obs "A2"
   if dump m2 != a2 then r := r.mismatch sec line (joinSp (dump m2)) (joinSp a2)
   -- the property: same description, and idempotent
+  if oddLit then return r
   if !sameDesc m1 m2 then
     r := r.violation sec line s!"description changed by formatting: before=[{joinSp (desc m1)}] after=[{joinSp (desc m2)}]"
   else r := r.addCover "same-description"
   if fmt2 != "ok" then r := r.violation sec line s!"formatting the formatted text fails: fmt2={fmt2}"
+  else if oddCm then pure ()
   else if idem != "1" then r := r.violation sec line "formatting the result again changes it (not idempotent)"
   else r := r.addCover "idempotent"
   if dump (norm m2) == dump m2 then r := r.addCover "output-normal"
